@@ -68,12 +68,34 @@ def clauses(v):
 
 # ------------------------------------------------------------------ merge-mode if
 def merge_if(ip, s, c):
+    """merge-mode if: both branches become an ite; when their results cannot be merged (None vs a number, tuples of
+    different shape) fall back to asking the path condition which branch applies"""
+    try:
+        return _merge_if(ip, s, c, False)
+    except Unsupported as ex:
+        if 'merge' not in str(ex):
+            raise
+    return _merge_if(ip, s, c, True)
+
+
+def _merge_if(ip, s, c, pc_aware):
     from .interp import _Return
     M = _models()
     t = ip.truth(c)
     if isinstance(t, bool):
         ip.run_block(s.body if t else s.orelse)
         return
+    # if the path condition (and the enclosing merge guards) already decide the test, evaluate that branch only:
+    # keeps specs with differently shaped results per case (None vs a number) evaluable and the terms small
+    st_ = ip.st
+    if pc_aware or st_.ghost.get('pc_aware'):
+        g_ = z3.And(*st_.guards) if st_.guards else z3.BoolVal(True)
+        if not st_.feasible(z3.And(g_, z3.Not(t))):
+            ip.run_block(s.body)
+            return
+        if not st_.feasible(z3.And(g_, t)):
+            ip.run_block(s.orelse)
+            return
     fr = ip.frames[-1]
     if not hasattr(fr, 'pending'):
         fr.pending = []
